@@ -16,6 +16,15 @@
       → #<idx> <reply> S=<live store over init keys and KEYS>
         reply = int:<n> | bulk:<hex> | nil | status | err
 
+    ticker <idx> <L|F> <R ms> <n ticks> <script: ok|nl|err|ld|fl,…|.>
+      → #<idx> calls=<ms,…|.> closed=<ms>:<errclass>|never      (cmd/syncer.go clusterTicker)
+    ident <idx> <cluster 0|1> <listen hex> <listenPeer hex> <unspec 0|1>
+      → #<idx> id=<hex> | refused                                (election identity)
+    contend …   (monitor-only, no output)
+
+    cfgfix <idx> <groupName set 0|1> <lease ns> <renew ns>     (whole yaml through InitSyncerConfig)
+      → #<idx> nocluster | <lease'> <renew'> <ttl>
+
     fix <idx> <lease ns> <renew ns>
       → #<idx> <lease'> <renew'> <ttl seconds>
 -/
@@ -154,6 +163,36 @@ def handle : List String → Option (List String)
   | ["requests", idx] =>
     -- the model's calls: one EVAL per Campaign/Renew/Resign, one GET per Leader
     some [s!"#{idx} campaign=EVAL renew=EVAL leader=GET resign=EVAL"]
+  | ["ticker", idx, role, r, n, script] =>
+    let parse : String → Option TRes := fun
+      | "ok" => some .ok | "nl" => some .notLeader | "err" => some .err
+      | "ld" => some .leader | "fl" => some .follower | _ => none
+    let toks := if script == "." then [] else script.splitOn ","
+    match r.toNat?, n.toNat?, toks.mapM parse with
+    | some r, some n, some sc =>
+      let o := tickerRun (role == "L") r n sc
+      let calls := if o.calls.isEmpty then "." else ",".intercalate (o.calls.map toString)
+      let closed := match o.closed with
+        | some (t, e) => s!"{t}:{errStr e}"
+        | none => "never"
+      some [s!"#{idx} calls={calls} closed={closed}"]
+    | _, _, _ => some [s!"#{idx} bad-op"]
+  | ["ident", idx, cl, listen, peer, unspec] =>
+    match Hex.decode listen, Hex.decode peer with
+    | some l, some p =>
+      match electionId (cl == "1") l p (unspec == "1") with
+      | some id => some [s!"#{idx} id={Hex.encode id}"]
+      | none => some [s!"#{idx} refused"]
+    | _, _ => some [s!"#{idx} bad-op"]
+  | "contend" :: _ => some []      -- monitor-only op (two hosts' configurations; no model output)
+  | ["cfgfix", idx, group, lease, renew] =>
+    -- (*SyncConfig).fix: a cluster section without groupName is dropped, otherwise ClusterConfig.fix
+    if group == "0" then some [s!"#{idx} nocluster"] else
+    match lease.toInt?, renew.toInt? with
+    | some l, some r =>
+      let f := fixCfg { lease := l, renew := r }
+      some [s!"#{idx} {f.lease} {f.renew} {ttlSeconds f}"]
+    | _, _ => some [s!"#{idx} bad-op"]
   | ["fix", idx, lease, renew] =>
     match lease.toInt?, renew.toInt? with
     | some l, some r =>
